@@ -11,13 +11,14 @@ def run(tier, seed):
     t0 = time.time()
     acc = propmc.run(PROP, tier, seed)
     calls = acc.c["calls"]
+    nt = acc.c["nt_any"]
     cov = {
         "states": calls,
-        "transitions": calls,
+        "transitions": calls + acc.c["second_calls"],
         "traces_validated_against_impl": calls,
         "evaluations": calls,
-        "distinct_nontrivial": acc.c["nt_any"],
-        "rule": "every (type, arity, params, box) of the contract table (DESIGN 2.7) is one state; one real call each; "
+        "distinct_nontrivial": nt,
+        "rule": "every (type, arity, params, box) of the contract table (DESIGN 2.7) is one state, one real call each; "
                 "non-trivial = distinct input on which the call pruned a bound, failed, or answered 'entailed'",
         "exhaustive": True,
         "instances": acc.c["instances"],
